@@ -1,16 +1,19 @@
 // c15.cpp — the spanner built by BaseApproxSpannerAlgorithm (through the PARMCB_VERIF accessors) and
 // is_bfs_reachable on the real code.
+//   B s t hops|inf <graph>   is_bfs_reachable
+//   S k <graph>              spanner, double weights (interior edge_weight property)
+//   S2 k <graph>             spanner, double weights through an EXTERNAL property map (the interior property holds decoys)
+//   SL k <graph>             spanner, long long weights (64-bit: values above 2^53, distinct weights that collide as doubles)
+//   SL2 k <graph>            spanner, long long weights through an external property map
 #include "graph.hpp"
 #include <parmcb/parmcb_approx_sva_signed.hpp>
 
-typedef std::back_insert_iterator<std::list<std::list<DGraph::edge_descriptor>>> OutIt;
-typedef boost::property_map<DGraph, boost::edge_weight_t>::type WMap;
-
-template<class Algo> void dump(std::ostream &out, GCase<DGraph> &c, Algo &algo) {
-        const DGraph &sp = algo.verif_spanner();
+template<class G, class Algo> void dump(std::ostream &out, GCase<G> &c, Algo &algo) {
+        typedef typename boost::graph_traits<G>::edge_descriptor Edge;
+        const G &sp = algo.verif_spanner();
         const auto &tr = algo.verif_edge_spanner_to_g();
         out << "NV " << boost::num_vertices(sp) << " RET";
-        std::vector<DGraph::edge_descriptor> sedges;
+        std::vector<Edge> sedges;
         for (auto ep = boost::edges(sp); ep.first != ep.second; ++ep.first) sedges.push_back(*ep.first);
         for (auto &se : sedges) { auto it = tr.find(se); out << " " << (it == tr.end() ? std::string("?") : std::to_string(c.id(it->second))); }
         out << " DROP";
@@ -20,6 +23,36 @@ template<class Algo> void dump(std::ostream &out, GCase<DGraph> &c, Algo &algo) 
         out << " SPW";
         for (auto &se : sedges) out << " " << exact_weight(boost::get(boost::edge_weight, sp, se), 0);
         out << " MAPSIZE " << tr.size();
+}
+
+// the caller's weight map is an EXTERNAL map; the interior edge_weight property holds decoys (the reversed order)
+template<class G> void run_external(Toks &t, std::ostream &out) {
+    typedef typename boost::graph_traits<G>::edge_descriptor Edge;
+    typedef typename boost::property_traits<typename boost::property_map<G, boost::edge_weight_t>::type>::value_type W;
+    typedef std::back_insert_iterator<std::list<std::list<Edge>>> OutIt;
+    size_t k = t.next_sz();
+    GCase<G> c; read_graph(t, c);
+    typedef std::map<Edge, W> Store;
+    typedef boost::associative_property_map<Store> XMap;
+    Store store; W mx = 0;
+    for (size_t i = 0; i < c.edges.size(); i++) { store[c.edges[i]] = (W) c.iw[i]; mx = std::max(mx, (W) c.iw[i]); }
+    for (size_t i = 0; i < c.edges.size(); i++) boost::put(boost::edge_weight, c.g, c.edges[i], mx + 1 - (W) c.iw[i]);   // reversed order
+    XMap xm(store);
+    typedef parmcb::detail::mcb_sva_signed<G, XMap, OutIt> Exact2;
+    parmcb::detail::BaseApproxSpannerAlgorithm<G, XMap, Exact2, false> algo(c.g, xm, boost::get(boost::vertex_index, c.g), k);
+    dump(out, c, algo);
+}
+
+template<class G> void run_interior(Toks &t, std::ostream &out) {
+    typedef typename boost::graph_traits<G>::edge_descriptor Edge;
+    typedef typename boost::property_map<G, boost::edge_weight_t>::type WMap;
+    typedef std::back_insert_iterator<std::list<std::list<Edge>>> OutIt;
+    size_t k = t.next_sz();
+    GCase<G> c; read_graph(t, c);
+    typedef parmcb::detail::mcb_sva_signed<G, WMap, OutIt> Exact;
+    WMap wm = boost::get(boost::edge_weight, c.g);
+    parmcb::detail::BaseApproxSpannerAlgorithm<G, WMap, Exact, false> algo(c.g, wm, boost::get(boost::vertex_index, c.g), k);
+    dump(out, c, algo);
 }
 
 int main() {
@@ -32,26 +65,9 @@ int main() {
             out << "B " << (parmcb::is_bfs_reachable(c.g, s, tg, hops) ? 1 : 0);
             return;
         }
-        if (kind == "S2") {     // S2 k graph : the caller's weight map is an EXTERNAL map; the interior edge_weight property holds decoys
-            size_t k = t.next_sz();
-            GCase<DGraph> c; read_graph(t, c);
-            typedef std::map<DGraph::edge_descriptor, double> Store;
-            typedef boost::associative_property_map<Store> XMap;
-            Store store; double mx = 0;
-            for (size_t i = 0; i < c.edges.size(); i++) { store[c.edges[i]] = (double) c.iw[i]; mx = std::max(mx, (double) c.iw[i]); }
-            for (size_t i = 0; i < c.edges.size(); i++) boost::put(boost::edge_weight, c.g, c.edges[i], mx + 1 - (double) c.iw[i]);   // reversed order
-            XMap xm(store);
-            typedef parmcb::detail::mcb_sva_signed<DGraph, XMap, OutIt> Exact2;
-            parmcb::detail::BaseApproxSpannerAlgorithm<DGraph, XMap, Exact2, false> algo(c.g, xm, boost::get(boost::vertex_index, c.g), k);
-            dump(out, c, algo);
-            return;
-        }
-        // S k graph
-        size_t k = t.next_sz();
-        GCase<DGraph> c; read_graph(t, c);
-        typedef parmcb::detail::mcb_sva_signed<DGraph, WMap, OutIt> Exact;
-        WMap wm = boost::get(boost::edge_weight, c.g);
-        parmcb::detail::BaseApproxSpannerAlgorithm<DGraph, WMap, Exact, false> algo(c.g, wm, boost::get(boost::vertex_index, c.g), k);
-        dump(out, c, algo);
+        if (kind == "S2") run_external<DGraph>(t, out);
+        else if (kind == "SL2") run_external<LGraph>(t, out);
+        else if (kind == "SL") run_interior<LGraph>(t, out);
+        else run_interior<DGraph>(t, out);      // S k graph
     });
 }
